@@ -2,8 +2,8 @@ package rules
 
 import (
 	"fmt"
-	"os"
 	"go/types"
+	"os"
 	"sort"
 	"strings"
 
@@ -337,16 +337,16 @@ func runC17(c *Ctx) {
 
 	c.rule("C17.O2", "goroutine accounting: every `go` statement of the module is either tracked by a WaitGroup (Add precedes the go statement, the goroutine signals Done on every exit) that some Stop waits for, or is a tabled short-lived / externally-owned goroutine whose blocking operations all have an escape (C17.B1)", func() {
 		exceptions := map[string]string{
-			"(*neutrino.ChainService).BanPeer": "disconnect helper: one query to the peer handler (select with quit) and a Disconnect call",
+			"(*neutrino.ChainService).BanPeer":               "disconnect helper: one query to the peer handler (select with quit) and a Disconnect call",
 			"(*neutrino.ChainService).outboundPeerConnected": "peerDoneHandler: ends when the peer disconnects (peers are disconnected by peerHandler at shutdown), then selects with quit; also connmgr.NewConnReq (external)",
-			"(*neutrino.ChainService).queryAllPeers": "closer goroutine: waits the local WaitGroup of the per-peer goroutines (tracked, timer-bounded) and closes allQuit",
-			"(*neutrino.ServerPeer).OnRead": "per-message delivery: one select{subscriber quit | send}; ends when the subscriber unsubscribes",
-			"(*neutrino.UtxoScanner).Start": "batchManager is joined through its shutdown channel (defer close(s.shutdown); Stop waits for it)",
-			"(*neutrino.blockManager).Stop": "wake-up ticker: ends when done is closed right after the join",
-			"(*neutrino.delayedCloser).closeEventually": "select{timer | quit}",
-			"(*neutrino.ChainService).Start": "connManager.Start (external, stopped by connManager.Stop)",
-			"(*neutrino.ChainService).handleDonePeerMsg": "connManager.NewConnReq (external)",
-			"(*neutrino.ChainService).handleQuery": "connManager.Connect (external)",
+			"(*neutrino.ChainService).queryAllPeers":         "closer goroutine: waits the local WaitGroup of the per-peer goroutines (tracked, timer-bounded) and closes allQuit",
+			"(*neutrino.ServerPeer).OnRead":                  "per-message delivery: one select{subscriber quit | send}; ends when the subscriber unsubscribes",
+			"(*neutrino.UtxoScanner).Start":                  "batchManager is joined through its shutdown channel (defer close(s.shutdown); Stop waits for it)",
+			"(*neutrino.blockManager).Stop":                  "wake-up ticker: ends when done is closed right after the join",
+			"(*neutrino.delayedCloser).closeEventually":      "select{timer | quit}",
+			"(*neutrino.ChainService).Start":                 "connManager.Start (external, stopped by connManager.Stop)",
+			"(*neutrino.ChainService).handleDonePeerMsg":     "connManager.NewConnReq (external)",
+			"(*neutrino.ChainService).handleQuery":           "connManager.Connect (external)",
 		}
 		g := c.graph()
 		n := 0
@@ -488,11 +488,11 @@ func runC17(c *Ctx) {
 		}
 		// service loops: hand-off channel -> the step that joins the loop
 		services := map[string]int{
-			"field:ChainService.query":                        stepOf("ChainService.wg.Wait"),
-			"field:peerWorkManager.newBatches":                stepOf("peerWorkManager).Stop"),
-			"field:SubscriptionManager.newSubscriptions":      stepOf("SubscriptionManager).Stop"),
-			"field:SubscriptionManager.cancelSubscriptions":   stepOf("SubscriptionManager).Stop"),
-			"field:blockManager.peerChan":                     stepOf("blockManager).Stop"),
+			"field:ChainService.query":                      stepOf("ChainService.wg.Wait"),
+			"field:peerWorkManager.newBatches":              stepOf("peerWorkManager).Stop"),
+			"field:SubscriptionManager.newSubscriptions":    stepOf("SubscriptionManager).Stop"),
+			"field:SubscriptionManager.cancelSubscriptions": stepOf("SubscriptionManager).Stop"),
+			"field:blockManager.peerChan":                   stepOf("blockManager).Stop"),
 		}
 		wm := stepOf("peerWorkManager).Stop")
 		avail := func(step int, key string, send bool) (bool, string) {
@@ -505,9 +505,9 @@ func runC17(c *Ctx) {
 			return false, ""
 		}
 		exceptions := map[string]string{
-			"(*neutrino.ChainService).queryAllPeers":                        "allQuit is closed after the local join of the per-peer goroutines, whose selects carry a timer arm",
-			"(*neutrino.checkpointedCFHeadersQuery).handleResponse":         "send on headerChan: capacity equals the number of requests and a sending response finishes its request",
-			"(*neutrino.ChainService).ConnectedPeers":                       "reply receive after the hand-off to peerHandler (alive until the last step, C17.X1)",
+			"(*neutrino.ChainService).queryAllPeers":                "allQuit is closed after the local join of the per-peer goroutines, whose selects carry a timer arm",
+			"(*neutrino.checkpointedCFHeadersQuery).handleResponse": "send on headerChan: capacity equals the number of requests and a sending response finishes its request",
+			"(*neutrino.ChainService).ConnectedPeers":               "reply receive after the hand-off to peerHandler (alive until the last step, C17.X1)",
 		}
 		stuck := c.stopOrder(steps, avail)
 		seen := map[string]bool{}
